@@ -172,7 +172,7 @@ fn init_app_routes(host: &HostConfig, host_index: usize) -> SubApp<AppState> {
 fn verify_connection(stream: &mut TcpStream, state: Arc<AppState>) -> bool {
     if let Ok(address) = stream.peer_addr() {
         if state.config.blacklist.mode == BlacklistMode::Block
-            && state.config.blacklist.list.contains(&address.ip())
+            && state.config.blacklist.contains(&address.ip())
         {
             state.logger.warn(format!(
                 "{}: Blacklisted IP attempted to connect",
